@@ -23,8 +23,8 @@ import (
 
 func init() {
 	reg.Register(&reg.Spec{ID: "C33",
-		Imports: "From verif Require Import lib.Base model.C33.",
-		Judge:   "C33.judge", Shard: 600, Run: run})
+		Imports: "From verif Require Import lib.Base model.C33 model.C33_styledown.",
+		Judge:   "C33_styledown.judge", Shard: 600, Run: run})
 }
 
 // ---------------------------------------------------------------- printing
@@ -278,7 +278,7 @@ type desc struct {
 func emit(c *reg.Ctx, class, via, opName, coqOp, in, arg string, nsegs int, obs []ui.Text) {
 	c.Count(via + "/" + class)
 	c.Emit(reg.Case{
-		Coq:        App("mkCase", coqOp, coqResList(obs)),
+		Coq:        App("COp", App("mkCase", coqOp, coqResList(obs))),
 		Desc:       desc{opName, in, arg, via, showTexts(obs)},
 		Key:        coqOp,
 		Nontrivial: nsegs >= 2,
@@ -653,8 +653,13 @@ func fixed(c *reg.Ctx) {
 
 func run(c *reg.Ctx) {
 	fixed(c)
+	sdFixed(c)
 	ev := eval.NewEvaler()
 	for i := 0; i < c.N; i++ {
+		if c.Rand.Intn(4) == 0 {
+			opStyledown(c)
+			continue
+		}
 		switch c.Rand.Intn(16) {
 		case 0:
 			opT(c)
